@@ -1,27 +1,48 @@
 package main
 
+const caseText = "one case = one seeded simulated run: a generated action list (PFCP requests from 1-4 simulated SMFs, kernel notifications, clock advances, armed faults, stop) executed against the real go-upf code in a synctest bubble; distinct = distinct action-list hash; "
+
 var rules = map[string]string{
-	"C01": "one case = one seeded simulated run (generated action list: PFCP requests from 1-3 SMFs with colliding / repeated / never-created / twice-removed rule ids, re-association, SEID-0 report responses, armed data-plane faults); non-trivial = at least one data-plane fault fired on a create/update/query AND a session that was hit by it later ended, or the run ended >= 2 sessions holding rules; distinct = distinct action-list hash",
-	"C04": "one case = one seeded run of establish / delete / re-associate / SEID-0 histories with SEID-class probes; non-trivial = a released SEID was re-issued AND a probe with SEID >= 2^63 was answered; distinct = distinct action-list hash",
-	"C05": "one case = one seeded run with >= 2 SMFs and sessions sharing rule ids and CP SEIDs; non-trivial = >= 3 sessions live at once while a deletion or re-association or SEID-0 response was processed; distinct = distinct action-list hash",
-	"C06": "one case = one seeded run with duplicated / held / reordered requests and clock advances; non-trivial = >= 1 duplicate delivered inside the retention window AND >= 1 after it; distinct = distinct action-list hash",
-	"C08": "one case = one seeded run; non-trivial = run contains an unanswerable request (missing Node ID / F-SEID / unknown node) AND an accepted establishment AND a request for a non-existing session; distinct = distinct action-list hash",
-	"C09": "one case = one seeded run with UPF-initiated requests, lossy / wrong / duplicated answers; non-trivial = >= 1 request stopped by a response AND >= 1 abandoned after its retries; distinct = distinct action-list hash",
+	"C01": caseText + "non-trivial = a data-plane fault fired on a create/update/query of a session that later ended, or the run ended >= 2 sessions that held rules",
+	"C02": caseText + "non-trivial = the run translated >= 1 uplink PDR with >= 2 SDF filters AND >= 1 FAR update",
+	"C03": caseText + "non-trivial = the run translated a QER rate >= 2^32, a URR with and a URR without the periodic trigger (registration checked against the periodic server)",
+	"C04": caseText + "non-trivial = a released SEID was re-issued AND a request with SEID >= 2^63 was answered",
+	"C05": caseText + "non-trivial = a deletion / re-association / SEID-0 response was processed while >= 3 sessions were live",
+	"C06": caseText + "non-trivial = >= 1 duplicate delivered inside the retention window AND >= 1 after it",
+	"C07": caseText + "non-trivial = >= 1 mutated datagram that still parses as a PFCP message AND >= 1 that does not, each followed by an answered heartbeat probe",
+	"C08": caseText + "non-trivial = the run contains an unanswerable request, an accepted establishment and a request for a non-existing session",
+	"C09": caseText + "non-trivial = >= 1 UPF-initiated request stopped by a matching response AND >= 1 abandoned after its retries",
+	"C10": caseText + "non-trivial = >= 1 kernel-originated report delivered, >= 1 pulled report delivered, >= 1 report for an unknown session/URR dropped",
+	"C11": caseText + "non-trivial = some URR reached UR-SEQN >= 2 and reports travelled in >= 2 of the 3 carriers",
+	"C12": caseText + "non-trivial = >= 1 termination report due to the last PDR going away AND >= 1 due to URR removal / session deletion",
+	"C13": caseText + "non-trivial = >= 1 switch from buffering to forwarding released >= 2 queued packets",
+	"C14": caseText + "non-trivial = >= 1 release of >= 2 packets decoded by the independent GTP-U reader",
+	"C15": caseText + "non-trivial = >= 2 ticks judged AND >= 1 period group released",
+	"C17": caseText + "non-trivial = Stop() was called while receive/transmit transactions (timers) were pending; runs execute under the race detector",
+	"C18": caseText + "non-trivial = the run ended with the progress probe answered after bursts (queues shrunk by knobs in most runs)",
 }
 
 func ruleText(p string) string {
 	if r, ok := rules[p]; ok {
 		return r
 	}
-	return "one case = one seeded simulated run (generated action list executed against the real go-upf code in a synctest bubble); non-trivial = the run reached the property's own coverage probes (see probes); distinct = distinct action-list hash"
+	return caseText + "non-trivial = the run reached the property's own coverage probes"
 }
 
 func assumptions(p string) []string {
 	a := []string{
-		"the simulated gtp5g kernel (simkernel) follows the netlink format and ADD/DEL/GET semantics as read from go-gtp5gnl and gtp5g; it is a model, not the kernel module",
+		"the simulated gtp5g kernel (simkernel) follows the netlink format and ADD/DEL/GET semantics as read from go-gtp5gnl and gtp5g (a multi-report query naming a missing URR fails as a whole; a reply must fit 7856 bytes); it is a model, not the kernel module",
 		"control-plane node ids are IPv4 literals (FQDN node ids need a resolver)",
 		"seeded search samples schedules, inputs and fault positions; a clean batch is evidence, not proof",
 		"go-pfcp, go-gtp5gnl, go-genl and the kept half of go-nl run as shipped and are part of the system under test, not of the oracle",
+	}
+	switch p {
+	case "C17":
+		a = append(a, "race freedom is judged by the Go race detector on the schedules the simulator produced (lock-step); internal state is never read by the harness in these runs")
+	case "C18":
+		a = append(a, "most runs shrink the queue capacities through build-overlay knobs; both known wedges are also witnessed at the shipped capacities")
+	case "C14":
+		a = append(a, "only the header form the UPF can emit (flags 0x34, PDU type 0) is reachable; the pure encoder grid over PDU types is not claimed")
 	}
 	return a
 }
